@@ -460,6 +460,12 @@ type OnCall struct {
 	Line     int
 }
 
+// ElemPtrSpec: a pointer result that addresses an element of a slice (result or parameter).
+type ElemPtrSpec struct {
+	Res        string
+	Slice, Idx SExpr
+}
+
 type SpecParam struct {
 	Name string
 	Type string // int, bool, byte, seq ([]byte or string)
@@ -491,6 +497,7 @@ type FuncContract struct {
 	FrameAssumed bool // `frame assumed`: the modifies list is used at call sites but not checked against the body
 	Pure      bool
 	Loops     map[int]*LoopSpec
+	ElemPtrs  []ElemPtrSpec // `elemptr res slice idx`: pointer result res is &slice[idx]
 	Maintain  []*Clause // running invariants: proved, then assumed, after every top-level statement of the body
 	Ghosts    []GhostDecl
 	OnCalls   []*OnCall
@@ -630,6 +637,11 @@ func (db *ContractDB) loadFile(path, pkgPath string) {
 			rest = word[k:] + " " + rest
 		}
 		switch kw {
+		case "celltype":
+			// celltype T: slices of struct T live in the modelled heap (see cells.go)
+			for _, n := range strings.Fields(rest) {
+				cellTypes[pkgPath+"::"+n] = true
+			}
 		case "spec":
 			sf, err := parseSpecFunc(rest)
 			if err != nil {
@@ -748,6 +760,20 @@ func (db *ContractDB) loadFile(path, pkgPath string) {
 						cur.Uses = append(cur.Uses, f)
 					}
 				}
+			case "elemptr":
+				// elemptr kv r len(h): the pointer result kv is &r[len(h)]
+				fs := strings.SplitN(strings.TrimSpace(rest), " ", 3)
+				if len(fs) != 3 {
+					errf(l.no, "elemptr: want 'elemptr <result> <slice> <index>'")
+					continue
+				}
+				se, err1 := parseSpecExpr(fs[1])
+				ie, err2 := parseSpecExpr(fs[2])
+				if err1 != nil || err2 != nil {
+					errf(l.no, "elemptr: bad expression")
+					continue
+				}
+				cur.ElemPtrs = append(cur.ElemPtrs, ElemPtrSpec{fs[0], se, ie})
 			case "trusted":
 				cur.Trusted = true
 			case "pure":
@@ -1098,6 +1124,10 @@ func parseSpecFunc(rest string) (*SpecFunc, error) {
 			ty = "seq"
 		case "int", "bool", "byte":
 		default:
+			if strings.HasPrefix(ty, "[]") {
+				ty = "cells:" + ty[2:] // a slice of a `celltype` struct
+				break
+			}
 			return nil, fmt.Errorf("spec param type %q unsupported", ty)
 		}
 		sf.Params = append(sf.Params, SpecParam{fs[0], ty})
